@@ -162,7 +162,7 @@ Definition direct_parse_key (s key : text) : result text :=
     end
   end.
 
-(* ------------------------------------------------------------------ the sparse slicers (parse.py:174-220) *)
+(* ------------------------------------------------------------------ the sparse slicers (parse.py:174-230) *)
 Definition strip_set (c : Z) : bool := (c =? LBRACK) || (c =? RBRACK) || (c =? SP) || (c =? NL) || (c =? TAB).
 Definition strip_f (x : text) : text := strip strip_set x.
 
@@ -207,42 +207,53 @@ Definition remap_axis_samp (rcv : text) (lk : lookup) : result text :=
 Definition rbind {A B} (r : result A) (f : A -> result B) : result B :=
   match r with RErr e => RErr e | ROk a => f a end.
 
-(* 199-202: r, c, v = strip_f(rcv).split(',') *)
+(* the loop of _direct_slice_data_sparse_obs: a record that strips to nothing is skipped
+   ("data": [] splits into one empty record); r, c, v = strip_f(rcv).split(',') *)
 Fixpoint obs_rows (rcvs : list text) (lk : lookup) : result (list text) :=
   match rcvs with
   | [] => ROk []
   | rcv :: rest =>
-    match three (split_char COMMA (strip_f rcv)) with
-    | None => RErr E_VALUE
-    | Some (r, _, _) =>
-      match lookup_get r lk with
-      | Some _ => rbind (remap_axis_obs rcv lk) (fun x => rbind (obs_rows rest lk) (fun xs => ROk (x :: xs)))
-      | None => obs_rows rest lk
+    match strip_f rcv with
+    | [] => obs_rows rest lk
+    | _ =>
+      match three (split_char COMMA (strip_f rcv)) with
+      | None => RErr E_VALUE
+      | Some (r, _, _) =>
+        match lookup_get r lk with
+        | Some _ => rbind (remap_axis_obs rcv lk) (fun x => rbind (obs_rows rest lk) (fun xs => ROk (x :: xs)))
+        | None => obs_rows rest lk
+        end
       end
     end
   end.
-(* 216-219: r, c, v = map(strip_f, rcv.split(',')) *)
+(* the loop of _direct_slice_data_sparse_samp: r, c, v = map(strip_f, rcv.split(',')) *)
 Fixpoint samp_rows (rcvs : list text) (lk : lookup) : result (list text) :=
   match rcvs with
   | [] => ROk []
   | rcv :: rest =>
-    match three (map strip_f (split_char COMMA rcv)) with
-    | None => RErr E_VALUE
-    | Some (_, c, _) =>
-      match lookup_get c lk with
-      | Some _ => rbind (remap_axis_samp rcv lk) (fun x => rbind (samp_rows rest lk) (fun xs => ROk (x :: xs)))
-      | None => samp_rows rest lk
+    match strip_f rcv with
+    | [] => samp_rows rest lk
+    | _ =>
+      match three (map strip_f (split_char COMMA rcv)) with
+      | None => RErr E_VALUE
+      | Some (_, c, _) =>
+        match lookup_get c lk with
+        | Some _ => rbind (remap_axis_samp rcv lk) (fun x => rbind (samp_rows rest lk) (fun xs => ROk (x :: xs)))
+        | None => samp_rows rest lk
+        end
       end
     end
   end.
 
 Definition SEP_ROWS : text := [RBRACK; COMMA; LBRACK].                 (* '],[' *)
 Definition wrap_rows (rows : list text) : text := [LBRACK; LBRACK] ++ join SEP_ROWS rows ++ [RBRACK; RBRACK].
+(* nothing kept: '[]' ; otherwise '[[%s]]' % '],['.join(new_data) *)
+Definition out_rows (rows : list text) : text := match rows with [] => [LBRACK; RBRACK] | _ => wrap_rows rows end.
 
 Definition slice_obs (data : text) (to_keep : list nat) : result text :=
-  rbind (obs_rows (split2 RBRACK COMMA data) (remap_lookup to_keep)) (fun rows => ROk (wrap_rows rows)).
+  rbind (obs_rows (split2 RBRACK COMMA data) (remap_lookup to_keep)) (fun rows => ROk (out_rows rows)).
 Definition slice_samp (data : text) (to_keep : list nat) : result text :=
-  rbind (samp_rows (split2 RBRACK COMMA data) (remap_lookup to_keep)) (fun rows => ROk (wrap_rows rows)).
+  rbind (samp_rows (split2 RBRACK COMMA data) (remap_lookup to_keep)) (fun rows => ROk (out_rows rows)).
 
 (* ------------------------------------------------------------------ direct_slice_data (parse.py:112-171) *)
 Definition K_SHAPE : text := Eval compute in codes_of_string "shape".
